@@ -39,7 +39,7 @@ def run_case(case):
             # neither the recipe nor the accessor declarations are readable in the expected shape: what the build decided
             # per port is not observable at this level (the compiled checks C02 observe it); fall back to match()
             obs['f'] = {k: v for k, v in obs['match'].items() if k in set(P) | set(R)}
-    elif isinstance(stg.exc, AdvShellError) and stg.diagnosed:
+    elif (isinstance(stg.exc, AdvShellError) or type(stg.exc).__module__.split('.')[0] == 'dznpy') and stg.diagnosed:
         obs['k'] = 'reject'
     elif case.get('mc') and isinstance(stg.exc, ValueError) and stg.diagnosed and str(stg.exc).strip():
         obs['k'] = 'reject'          # multi-client on a non-MTS port: a worded ValueError (lenient reading, see C13)
